@@ -259,6 +259,8 @@ theorem exec_wellFormed {w w' : World} {blk : Block} {op : Op} {o : Outcome}
     split
     · exact hc
     · exact List.mem_append_left _ hc
+  | chanOpen v cv ord => obtain ⟨rfl, _⟩ := exec_chanOpen h; exact hwf
+  | chanClose id => exact (exec_chanClose h).elim
   | allow snd c gg =>
     simp only [World.exec] at h
     simp at h
